@@ -281,3 +281,95 @@ func init() {
 	}}
 	_ = sdk.ZeroInt
 }
+
+// ---------------------------------------------------------------------------------------------
+// reward-block configurations with extreme sizes (start from non-initial states): up to four files, each with a
+// size from the boundary set and one prover out of two, posted and proven through real messages; then the next
+// blocks (two reward heights) must be processed without panicking.
+
+var c05CfgSizes = []int64{1, 1000, 1 << 62, math.MaxInt64}
+
+func c05ConfigEnum(thorough bool) mc.Enum {
+	e := mc.Enum{Prop: "C05", Name: "C05/reward-configs", Cfg: C05{}.Config(), ConfirmB: true, ConfB: 25,
+		Setup: func(env world.Env) { C05{}.Init(env) }}
+	files := make([]*sfile, 4)
+	for i := range files {
+		files[i] = mkFile(seqBytes(12, byte(40+i)), 4)
+	}
+	maxFiles := 3
+	if thorough {
+		maxFiles = 4
+	}
+	type fc struct {
+		size   int64
+		prover string
+		plan   bool
+	}
+	var rec func(cur []fc)
+	rec = func(cur []fc) {
+		if len(cur) > 0 {
+			cfg := append([]fc{}, cur...)
+			var d []string
+			for _, f := range cfg {
+				d = append(d, fmt.Sprintf("%d@%s/%v", f.size, f.prover, f.plan))
+			}
+			e.Cases = append(e.Cases, mc.Case{Desc: "files|" + strings.Join(d, "|"), Run: func(env world.Env) mc.CaseResult {
+				w := env.W()
+				u := w.A("U").Bech
+				cr := mc.CaseResult{Class: "no-panic"}
+				h := env.Ctx().BlockHeight()
+				posted := 0
+				for i, f := range cfg {
+					msg := storagetypes.NewMsgPostFile(u, files[i].merkle, f.size, 0, 0, 1, "{}")
+					if !f.plan {
+						msg.Expires = h + 20_000
+					}
+					if !env.Deliver(msg).OK() {
+						continue
+					}
+					posted++
+					item, hl := files[i].proofFor(0)
+					env.Deliver(storagetypes.NewMsgPostProof(w.A(f.prover).Bech, files[i].merkle, u, h, item, hl, 0))
+				}
+				cr.Nontrivial = posted >= 2
+				for b := 0; b < 4; b++ {
+					if bp := env.NextBlock(day); bp != nil {
+						cr.Class = "panic"
+						cr.Viols = append(cr.Viols, viol("block-processing-never-panics", panicSig(bp), "files %s: %s of height %d panicked: %s", strings.Join(d, " "), bp.Phase, bp.Height, bp.Value))
+						break
+					}
+				}
+				return cr
+			}})
+		}
+		if len(cur) == maxFiles {
+			return
+		}
+		for _, sz := range c05CfgSizes {
+			for _, p := range []string{"P1", "P2"} {
+				for _, plan := range []bool{false, true} {
+					if plan && len(cur) == 0 {
+						continue // a plan-paid post of an extreme size needs space already in use to wrap; keep the first pay-once
+					}
+					rec(append(append([]fc{}, cur...), fc{sz, p, plan}))
+				}
+			}
+		}
+	}
+	rec(nil)
+	return e
+}
+
+func init() {
+	CaseReplayers["C05/reward-configs"] = func(r *mc.Run, c string) { r.ReplayCase(c05ConfigEnum(true), c) }
+	prev := Props["C05"].Run
+	Props["C05"] = Prop{Level: "model_checking", Run: func(r *mc.Run, tier string) {
+		prev(r, tier)
+		r.Rules = append(r.Rules, "plus an exhaustive enumeration of reward-block configurations: up to 3 (thorough 4) files, each with FileSize in {1,1000,2^62,2^63-1}, one of two provers, pay-once or plan-paid, posted and proven through real messages, followed by four one-day blocks")
+		dl := time.Now().Add(40 * time.Second)
+		if tier == "thorough" {
+			dl = time.Now().Add(15 * time.Minute)
+		}
+		r.AddEnum(c05ConfigEnum(tier == "thorough"), workers(), dl)
+	}}
+}
